@@ -167,7 +167,13 @@ func editResync(r *Run) {
 	if r.SweepCase < 0 {
 		seed = t.Draw64(0, "content-seed")
 	}
-	a := expandContent(ckRandom, seed, c.N1, c.S)
+	akind := ckRandom
+	if r.SweepCase < 0 && c.S >= 8 && c.N1 >= 2*c.S && t.Bool(1, 5, "crc-twins") {
+		// two different slices of A share their CRC-32
+		akind = ckCRCTwins
+		r.Probe("slices-sharing-crc32")
+	}
+	a := expandContent(akind, seed, c.N1, c.S)
 	b := expandContent(ckRandom, seed^0x5555, c.S+1+int(seed%3), c.S)
 	d := simdisk.NewMem()
 	d.MkdirAll("/w/set")
